@@ -132,7 +132,15 @@ func c13Specs(tier string) []*Spec {
 		specs = append(specs, &Spec{Weight: wt, ID: "C13", Name: name, Cfg: defaultCfg, Keys: keys, Vals: bs("x"), MaxDepth: depth, MaxMaint: 0, UnboundedReads: true,
 			Alphabet: a.Ops, Oracles: []Oracle{oracleFormat()}})
 	}
+	// idempotent re-commit of an existing version (LoadVersion(older), the same writes again, SaveVersion) followed by
+	// further commits: what the instance writes afterwards must still be the canonical encoding of the history
+	addResave := func(name string, depth, wt int) {
+		a := Alpha{Writes: true, Save: true, LoadVersion: true, MaxVersions: 3}
+		specs = append(specs, &Spec{Weight: wt, ID: "C13", Name: name, Cfg: defaultCfg, Keys: bs("a"), Vals: bs("x", "y"), MaxDepth: depth, MaxMaint: 1,
+			Alphabet: a.Ops, Oracles: []Oracle{oracleFormat(), oracleEncodedDB(probesFor(bs("a")))}})
+	}
 	if tier == "quick" {
+		addResave("resave/1key/d9", 9, 4)
 		addHQ("hashquery/4keys/d6", 6, 6)
 		add("default/3keys/d6", defaultCfg, k3, 6, 2, 10)
 		add("nofast/3keys/d5", Cfg{Fast: false}, k3, 5, 2, 2)
@@ -143,6 +151,7 @@ func c13Specs(tier string) []*Spec {
 		addB("boundary-lengths/d3", 3, 3)
 		return specs
 	}
+	addResave("resave/1key/d11", 11, 8)
 	addHQ("hashquery/4keys/d8", 8, 20)
 	add("default/3keys/d7", defaultCfg, k3, 7, 2, 30)
 	add("nofast/3keys/d6", Cfg{Fast: false}, k3, 6, 2, 8)
